@@ -4,6 +4,7 @@ import (
 	"pgregory.net/rapid"
 
 	"verif/gen"
+	"verif/refmodel"
 )
 
 // DrawLog draws a LogHistory of at most maxN events.
@@ -35,14 +36,9 @@ func DrawLog(t *rapid.T, maxN int, distinct bool, restarts bool) LogHistory {
 func DrawBigLog(t *rapid.T, n int) LogHistory {
 	h := LogHistory{Distinct: true}
 	seed := rapid.SliceOfN(rapid.Byte(), 32, 32).Draw(t, "bigseed")
-	var d gen.D
-	copy(d[:], seed)
 	for i := 0; i < n; i++ {
-		// a cheap deterministic stream of distinct digests
-		for j := range d {
-			d[j] = d[j]*5 + byte(i>>uint(j%3*8)) + byte(j*7+1)
-		}
-		d[0], d[1], d[2], d[3] = byte(i>>24)^seed[0], byte(i>>16)^seed[1], byte(i>>8)^seed[2], byte(i)^seed[3]
+		// uniformly spread digests (one recovery tile per event, as with real events)
+		d := refmodel.EventDigest(append(append([]byte{}, seed...), byte(i>>16), byte(i>>8), byte(i)))
 		h.Digests = append(h.Digests, gen.Hex(d))
 	}
 	k := rapid.IntRange(2, 5).Draw(t, "bigcalls")
